@@ -17,6 +17,10 @@ CHECKS = {
    text="Real XR reconciler (production wiring) over the simulated API server: generated 1-4 step pipelines of scripted gRPC functions (errors, fatal results, requirements that never stabilise) after an initial composition and a perturbed observed state; oracle over the write log: failing pipelines write nothing on composed kinds and leave resourceRefs untouched, successful ones delete exactly observed-minus-desired (reference fold of the scripted steps); P&T template loss/rename likewise. Held on the generated cases.",
    note="Trusted: " + SIM + "; the reference fold of scripted step add/del sets; requirement rounds scripted per reconcile.",
    technique="runtime monitoring: write-log oracle (set equation deleted == observed minus desired) over generated pipelines", ref="3/C03"),
+ "C17": dict(cat="exploration",
+   text="Real MapDag/MapUpgradingDag (Init/Sort/TraceNode) on ALL digraphs over <=3 (quick) / <=4 (thorough) ids incl. self-loops and implied nodes plus random larger graphs, compared with an independent reference digraph; real resolver reconciler (3 modes: plain, upgrades, upgrades+downgrades) over sim with a fake tag fetcher against a reference version selector; real PackageDependencyManager.Resolve against a reference closure. Exhaustive for the small digraph space, sampled beyond.",
+   note="Trusted: Masterminds/semver Constraints.Check/Compare as the primitive; reference digraph (Kahn), sim. Panicking reconciles (semver.MustParse on digests) are judged like error returns.",
+   technique="runtime monitoring: exhaustive small-graph enumeration + generated inputs against reference implementations", ref="3/C17"),
  "C18": dict(cat="exploration",
    text="Real ClusterRoleBackedValidator/Expand checked against an independent Kubernetes RuleAllows evaluator on the complete universe of concrete requests per (allow-list, request) pair (complete grid of single-token rules + generated pairs); real roles/definition/binding reconcilers over sim: any rejected request => no role write; system role rules bounded by owned/family CRDs + golden baseline + accepted requests; XRD roles name exactly the XRD's resources. Held on the generated inputs; exhaustive only for the single-token rule grid.",
    note="Trusted: the concrete-request evaluator (pinned by c18/oracle_test.go), golden/rbac_baseline.json, the independent image-reference parser; literal '*' resourceNames are not generated (documented quirk).",
